@@ -42,6 +42,8 @@ OrderedDictSafeDumper.add_representer(
 class Writer(BaseWriter):
     """Outputs YAML markup"""
 
+    unicode_io = True
+
     def _to_dict(self, bib_data):
         def process_person_roles(entry):
             for role, persons in entry.persons.items():
@@ -81,10 +83,5 @@ class Writer(BaseWriter):
         )
 
     def write_stream(self, bib_data, stream):
-        return self._dump(self._to_dict(bib_data), encoding='UTF-8', stream=stream)
-
-    def to_string(self, bib_data):
-        return self._dump(self._to_dict(bib_data), encoding=None)
-
-    def to_bytes(self, bib_data):
-        return self._dump(self._to_dict(bib_data), encoding='UTF-8')
+        # PyYAML emits text; BaseWriter and pybtex.io apply self.encoding
+        return self._dump(self._to_dict(bib_data), encoding=None, stream=stream)
